@@ -48,6 +48,29 @@ func unlockFaultSweep(sc *sim.Scenario, fn func(sc *sim.Scenario, res *sim.Resul
 		fn(c, sim.Run(c))
 		runs++
 	}
+	// the Unlock calls that exist only on an error path: every single fault,
+	// and in that run every Unlock issued after the failed call
+	for k := 1; k <= base.Fallible; k++ {
+		c := cloneScenario(sc)
+		c.FailAt = []int{k}
+		fr := sim.Run(c)
+		injUnlocks, seen := 0, false
+		for _, e := range fr.Log {
+			if e.Injected && e.Kind != "db.Unlock" {
+				seen = true
+			}
+			if e.Kind == "db.Unlock" {
+				injUnlocks++
+				if seen {
+					c2 := cloneScenario(sc)
+					c2.FailAt = []int{k}
+					c2.FailUnlockAt = []int{injUnlocks}
+					fn(c2, sim.Run(c2))
+					runs++
+				}
+			}
+		}
+	}
 	return
 }
 
